@@ -211,7 +211,7 @@ CHECKS = {
     "C08": dict(
         category="model_checking", engine="E2",
         technique="explicit-state BFS over histories of public tree operations on real Expression trees, invariants checked in every state",
-        text="All histories (length 3 quick / 4 thorough on the smallest trees) of hash/==/set/append/replace/pop/transform/copy/"
+        text="All histories (length 3 quick / 4 thorough on the smallest tree) of hash/==/set/append/replace/pop/transform/copy/"
              "builder/simplify/optimizer-rule operations at every node path and list index of 8 small parsed trees are executed "
              "on real trees; in every reached state parent/arg_key/index links, single storage, cached-hash == fresh hash and "
              "equality <=> structural equality are checked. A second stream checks the same invariants on every tree returned by "
@@ -227,7 +227,7 @@ CHECKS = {
              "attributes vs from-import vs RULES - are executed under a scheduler that owns every switch: scheduling points are line events "
              "in the lazy-loading / registry / metaclass / dispatch-cache functions and every lock operation (importlib's module locks and "
              "both sqlglot import locks are replaced by scheduler-aware ones). All schedules with 0 preemptions (both start orders) and 1 "
-             "preemption (quick: at the first visit of every distinct line per thread; thorough: every point, plus 2 preemptions at "
+             "preemption (quick: at the first visit of every distinct line per thread; thorough: the first three visits of every line, plus 2 preemptions at "
              "shared-state lines and a 3-thread harness) run to completion; each thread must return its sequential baseline, nothing may "
              "raise or deadlock, each dialect class is constructed once and each module executed once. A violating schedule is replayed "
              "twice and must reproduce identically.",
